@@ -73,6 +73,13 @@ def parseDisk (s : String) : Option (List DiskEnt) :=
       let k ← parseKind k
       let alts ← pathList alts
       pure { path := p, size := sz, kind := k, alts := alts }
+    | [p, sz, k, alts, h] => do
+      let p ← pathOfHex p
+      let sz ← sz.toNat?
+      let k ← parseKind k
+      let alts ← pathList alts
+      let h ← h.toNat?
+      pure { path := p, size := sz, kind := k, alts := alts, hash := h }
     | _ => none
 
 def parseCache (s : String) : Option (Option (List Entry)) :=
@@ -119,6 +126,7 @@ def showState (s : St) : String :=
   " count=" ++ toString s.report.count ++
   " size=" ++ toString s.report.size ++
   " paths=" ++ showPaths (topLevel s.report.paths).eraseDups ++
+  " kepthash=" ++ toString (((s.disk.map (·.hash)).sum) % 4294967296) ++
   " fileargs=" ++ showAssoc (s.fileArgs.map fun (a, hs) => (a, hs.map showHolder)) ++
   " postnodes=" ++ showAssoc s.postNodes
 
